@@ -61,6 +61,12 @@ var Entries = []Entry{
 	{"domains.PackageDomain", false, true},
 	{"domains.New", false, true},
 	{"domains.Handled", false, true},
+	{"errors.Newf%w", false, false},
+	{"errors.Errorf%w", false, false},
+	{"errors.NewWithDepthf%w", true, false},
+	{"errors.AssertionFailedf%w", false, false},
+	{"errutil.NewWithDepthf%w", true, false},
+	{"errors.Wrapf%w", false, false},
 }
 
 var base = stderrors.New("base")
@@ -162,6 +168,18 @@ func L0(v *sym.V, which int, d int) (error, errors.Domain) {
 	case "domains.Handled":
 		e := domains.Handled(base)
 		return e, domains.GetDomain(e)
+	case "errors.Newf%w":
+		return errors.Newf("m: %w", base), ""
+	case "errors.Errorf%w":
+		return errors.Errorf("m %w m", base), ""
+	case "errors.NewWithDepthf%w":
+		return errors.NewWithDepthf(d, "m: %w", base), ""
+	case "errors.AssertionFailedf%w":
+		return errors.AssertionFailedf("m: %w", base), ""
+	case "errutil.NewWithDepthf%w":
+		return errutil.NewWithDepthf(d, "%w: m", base), ""
+	case "errors.Wrapf%w":
+		return errors.Wrapf(base, "m: %w", base), ""
 	}
 	panic("c16a: unknown entry")
 }
